@@ -143,3 +143,31 @@ Definition wrap_ok (c : tcase) : Prop :=
 (* the script of the cooperative client for this case *)
 Definition coop_script (c : tcase) (plans : list plan) : list event :=
   script_of (tmo (t_cfg c)) 0 (combine (fst (expected c)) plans).
+
+(* ---------- the same with noise also in the lost rounds ---------- *)
+Record gplan := {
+  g_rounds : list (list (noise * Z));  (* one entry per lost round: the noise arriving in it *)
+  g_noises : list (noise * Z);         (* noise in the successful round *)
+  g_delta : Z
+}.
+(* the noise of consecutive lost rounds, the first of which starts at R *)
+Fixpoint round_events (tm R : Z) (rounds : list (list (noise * Z))) : list event :=
+  match rounds with
+  | [] => []
+  | nzs :: r => map (fun nz => noise_event (R + snd nz) (fst nz)) nzs ++ round_events tm (R + tm) r
+  end.
+Fixpoint gscript_of (tm : Z) (T : Z) (pps : list (pkt * gplan)) : list event :=
+  match pps with
+  | [] => []
+  | (p, pl) :: r =>
+      let S := T + Z.of_nat (length (g_rounds pl)) * tm in
+      round_events tm T (g_rounds pl) ++
+      map (fun nz => noise_event (S + snd nz) (fst nz)) (g_noises pl) ++
+      Recv (S + g_delta pl) client (ack_bytes (want p)) :: gscript_of tm (S + g_delta pl) r
+  end.
+Definition gplan_ok (tm : Z) (rt : nat) (pp : pkt * gplan) : Prop :=
+  (length (g_rounds (snd pp)) <= rt)%nat /\ 0 <= g_delta (snd pp) < tm /\
+  Forall (Forall (noise_ok (want (fst pp)) (tm - 1))) (g_rounds (snd pp)) /\
+  Forall (noise_ok (want (fst pp)) (g_delta (snd pp))) (g_noises (snd pp)).
+Definition gcoop_script (c : tcase) (plans : list gplan) : list event :=
+  gscript_of (tmo (t_cfg c)) 0 (combine (fst (expected c)) plans).
